@@ -79,6 +79,19 @@ def main(tier):
     if recs_cm is None:
         c.finish(rule="build failed")
     rng = c.rng
+    # the parser models: cursor theorems (Blocks_cursor_advance / _rescan / _look_ahead, Blocks_lines_lf_terminated),
+    # parse_inline_advances_partial / inlines_total_partial; tied to the compiled parser here
+    from checks import layerc
+
+    def inl_panic(o, md, detail, line):
+        parts = detail.split(" ")
+        loc = parts[2] if len(parts) > 2 else ""
+        if spx_site(loc) and b"[^" in md:
+            c.known_hit("spx_consume_multiline_footnote_ref", {"doc": hx(md), "opts": o, "at": loc})
+        else:
+            c.violation("parse_document panics: " + detail[:200], {"opts": o, "md": hx(md), "line": line})
+    layerc.blocks(c, tier, 0.25 if tier == "quick" else 0.1)
+    layerc.inlines(c, tier, 0.25 if tier == "quick" else 0.1, on_impl_panic=inl_panic)
     fams = families(rng, tier)
     osets = option_sets(rng, tier)
     cases = []
